@@ -31,9 +31,13 @@ func Pick[T any](r *R, xs []T) T { return xs[r.Intn(len(xs))] }
 
 // Fork derives an independent stream (so that adding choices in one place does not shift others).
 func (r *R) Fork(label string) *R {
-	h := r.U64()
+	// pure: does not advance r (forks may be taken concurrently and in any order)
+	h := r.s ^ 0x9E3779B97F4A7C15
 	for i := 0; i < len(label); i++ {
 		h = (h ^ uint64(label[i])) * 0x100000001b3
 	}
-	return &R{s: h}
+	z := h
+	z = (z ^ (z >> 30)) * 0xBF58476D1CE4E5B9
+	z = (z ^ (z >> 27)) * 0x94D049BB133111EB
+	return &R{s: z ^ (z >> 31)}
 }
